@@ -250,6 +250,10 @@ impl<'a, 't> Interp<'a, 't> {
 
     fn stmt_inner(&mut self, s: &'a GStmt, env: &mut Env, depth: usize) -> R<()> {
         self.counters.statements += 1;
+        if self.counters.statements > 3_000_000 {
+            // the reference model gives up on programs this heavy (counted as inconclusive)
+            return Err(ErrClass::Unsupported("model step budget"));
+        }
         *self
             .counters
             .statements_by_kind
@@ -370,11 +374,23 @@ impl<'a, 't> Interp<'a, 't> {
     }
 
     fn scan(&mut self, subject: &str, arms: &'a [GArm], env: &mut Env, depth: usize) -> R<()> {
+        // compiled once per thread: a scan inside nested loops runs thousands of times
+        thread_local! {
+            static COMPILED: std::cell::RefCell<HashMap<String, Option<regex::Regex>>> = std::cell::RefCell::new(HashMap::new());
+        }
         let regexes: Vec<regex::Regex> = arms
             .iter()
-            .map(|a| regex::Regex::new(&a.regex))
-            .collect::<Result<_, _>>()
-            .map_err(|_| ErrClass::Unsupported("invalid regex"))?;
+            .map(|a| {
+                COMPILED.with(|c| {
+                    let mut c = c.borrow_mut();
+                    if c.len() > 4096 {
+                        c.clear();
+                    }
+                    c.entry(a.regex.clone()).or_insert_with(|| regex::Regex::new(&a.regex).ok()).clone()
+                })
+            })
+            .collect::<Option<_>>()
+            .ok_or(ErrClass::Unsupported("invalid regex"))?;
         let mut pos = 0usize;
         while pos < subject.len() {
             // earliest match at or after `pos`, earlier arm first on ties; matching is done on
